@@ -54,6 +54,9 @@ func main() {
 		if err := genSkeletons(host, facts); err != nil {
 			fatal(err)
 		}
+		if err := genCache(host, facts); err != nil {
+			fatal(err)
+		}
 	}
 	if sel("purity") {
 		if err := genPurity(host, facts); err != nil {
